@@ -229,6 +229,25 @@ func c01Spaces(c *fw.Ctx) {
 							if err != nil || !bytes.Equal(packBuf[:n], want) {
 								r.Fail("no-rdata/pack", "PackRR(%T type %d) = %x, %v; reference %x", x, t, packBuf[:max(n, 0)], err, want)
 							}
+							// the RFC 3597 form of the RDATA-less record, converted into a fresh receiver and into one that
+							// held a record with RDATA before: both pack to the same octets (nothing of the earlier record stays)
+							for _, used := range []bool{false, true} {
+								g := new(dns.RFC3597)
+								if used {
+									if err := g.ToRFC3597(&dns.A{Hdr: dns.RR_Header{Name: "earlier.example.", Rrtype: dns.TypeA, Class: 1, Ttl: 9}, A: []byte{192, 0, 2, 1}}); err != nil {
+										r.Fail("no-rdata/ToRFC3597", "ToRFC3597 of an A record: %v", err)
+										continue
+									}
+								}
+								if err := g.ToRFC3597(x); err != nil {
+									r.Fail("no-rdata/ToRFC3597", "ToRFC3597(%T type %d, RDATA-less) into a receiver used before=%v: %v", x, t, used, err)
+									continue
+								}
+								n, err := dns.PackRR(g, packBuf, 0, nil, false)
+								if err != nil || !bytes.Equal(packBuf[:n], want) {
+									r.Fail("no-rdata/ToRFC3597", "ToRFC3597(%T type %d, RDATA-less) into a receiver used before=%v packs to %x, %v; reference %x", x, t, used, packBuf[:max(n, 0)], err, want)
+								}
+							}
 						}
 					}
 				})
